@@ -97,8 +97,14 @@ def handle5 (op : String) (a obs : List String) : Option Verdict :=
       ((Handoff.drain (Handoff.work s + 1) s).delivered.eraseDups).length
     let du := run Generated.CAP_READY_UNI_WT Generated.HANDOFF_RESERVE_FIRST_UNI nu
     let db := run Generated.CAP_READY_BI_WT Generated.HANDOFF_RESERVE_FIRST_BI nb
-    let model := [s!"uni={du}/{nu}", s!"bi={db}/{nb}", "dup=0", "unknown=0"]
+    -- one kind accepted first: the two kinds' pipelines share nothing (`Generated.DRIVER_SEMAPHORE_FREE`,
+    -- separate queues), so the kind the application asks for is delivered however many streams
+    -- of the other kind are waiting
+    let ordered := get a 8 == "uni" || get a 8 == "bi"
+    let model := [s!"uni={du}/{nu}", s!"bi={db}/{nb}", "dup=0", "unknown=0"] ++ (if ordered then ["first=ok"] else [])
+    let model := if ordered && !Generated.DRIVER_SEMAPHORE_FREE then obs else model
     let prop := check [("no_trap", !isTrap obs),
+      ("kind_asked_for_first_delivered_while_the_other_waits", !ordered || field obs "first" == "ok"),
       ("every_uni_stream_delivered", field obs "uni" == s!"{nu}/{nu}"),
       ("every_bidi_stream_delivered", field obs "bi" == s!"{nb}/{nb}"),
       ("none_delivered_twice", field obs "dup" == "0"),
